@@ -8,5 +8,27 @@ package recovery
 //@   property C10
 //@   safety C10
 //@   requires decryptHeader != nil && verifyHeader != nil
-//@   modifies *, indexWrites
+//@   modifies *, indexWrites, ghosts(C04)
 //@   ensures [drive-unchanged] driveHeld == old(driveHeld)
+//@   property C04
+//@   requires [grid] reader.DriveIsRegular ==> pipes.RecordSize >= 1 && record >= 0 && block >= 0 && block < pipes.RecordSize
+//@   loop 1 invariant [position] trBroken[tr] || (0 <= block && block < pipes.RecordSize && 512*(pipes.RecordSize*record+block) == drivePos[reader.Drive] + trSkip[tr] && trSrc(tr) == reader.Drive && trUnread[tr] == 0)
+//@   at call indexHeader#1 assert [header-position] 512*(pipes.RecordSize*arg_record+arg_block) == hdrStart(arg_tarhdr) && 0 <= arg_block && arg_block < pipes.RecordSize
+
+//@ func Query
+//@   property C10
+//@   safety C10
+//@   modifies *, ghosts(C04)
+//@   ensures [drive-unchanged] driveHeld == old(driveHeld)
+//@   property C04
+//@   requires [grid] reader.DriveIsRegular ==> pipes.RecordSize >= 1 && record >= 0 && block >= 0 && block < pipes.RecordSize
+//@   loop 1 invariant [position] trBroken[tr] || (0 <= block && block < pipes.RecordSize && 512*(pipes.RecordSize*record+block) == drivePos[reader.Drive] + trSkip[tr] && trSrc(tr) == reader.Drive && trUnread[tr] == 0)
+//@   at call TarHeaderToDBHeader#1 assert [header-position] 512*(pipes.RecordSize*arg_record+arg_block) == hdrStart(arg_tarhdr) && 0 <= arg_block && arg_block < pipes.RecordSize
+
+//@ func Fetch
+//@   property C10
+//@   safety C10
+//@   modifies *, ghosts(C04)
+//@   ensures [drive-unchanged] driveHeld == old(driveHeld)
+//@   property C04
+//@   at call Seek#1 assert [seek-target] arg_offset == 512*(pipes.RecordSize*record+block) && arg_whence == 0
